@@ -121,6 +121,16 @@ func runCopy(mode string, seed int64, tier string, sc *Script) map[string]any {
 	var maxSrc, maxDst int32
 	maxRatio := 0.0
 
+	if mode == "C02" || mode == "C04" {
+		// a waiter for the only slot is cancelled (or its group fails) while it waits: forced
+		// schedule, in a child process
+		sc.Case("slot-waiter-cancelled")
+		sc.NonTrivial()
+		for i := 0; i < 2; i++ {
+			sc.Op(slotCancelVerdict("CANCEL"), "cp slotcancel kind=cancel")
+			sc.Op(slotCancelVerdict("FAIL"), "cp slotcancel kind=fail")
+		}
+	}
 	exec := func(cc copyCase, caseNo int) {
 		sc.Case(cc.label)
 		sc.NonTrivial()
